@@ -117,6 +117,26 @@ def generate(g, tier):
         else:
             t, out = f'VAR v {a}\nFUNC f v\n    IF v == {b}\n        $STRING "arg "+v\n    ELSE\n        $STRING "stale "+v\nIF TRUE\n    REPEAT 1\n        RUN f {b}', [f'STRING arg {b}']
         cases.append(dict(op='compile', src=dict(text=t), meta=dict(family='param-name-clash', exp=['ok', out, [], None])))
+    # the LATEST visible definition: a file brought in with START / STARTENV redefines a function the importer already has (no new
+    # function name, another body, another parameter list) — calls after the import run the new one; STARTCODE keeps the old one;
+    # a second library overrides a helper of the first
+    for _ in range(count(tier, 30, 200)):
+        kw = r.choice(['START', 'STARTENV', 'STARTCODE'])
+        shape = r.choice(['importer-has', 'two-libs', 'same-arity'])
+        if shape == 'importer-has':
+            main = f'FUNC f a\n    $STRING "old "+a\nRUN f 1\n{kw} lib\n' + ('RUN f 1,2' if kw != 'STARTCODE' else 'RUN f 3')
+            lib = 'FUNC f a,b\n    $STRING "new "+a+b'
+            out = ['STRING old 1'] + (['STRING new 12'] if kw != 'STARTCODE' else ['STRING old 3'])
+        elif shape == 'two-libs':
+            main = f'START lib\nRUN helper\n{kw} lib2\nRUN helper'
+            lib = 'FUNC helper\n    STRING from-lib1'
+            out = ['STRING from-lib1'] + (['STRING from-lib2'] if kw != 'STARTCODE' else ['STRING from-lib1'])
+        else:
+            main = f'FUNC f a\n    $STRING "old "+a\n{kw} lib\nREPEAT 2\n    RUN f 7'
+            lib = 'FUNC f a\n    $STRING "new "+a'
+            out = (['STRING new 7'] if kw != 'STARTCODE' else ['STRING old 7']) * 2
+        files = {'proj/main.txt': main, 'proj/lib.txt': lib, 'proj/lib2.txt': 'FUNC helper\n    STRING from-lib2'}
+        cases.append(dict(op='compile_file', file='proj/main.txt', files=files, meta=dict(family='import-redefines', exp=['ok', out, [], None])))
     return cases
 
 
